@@ -709,10 +709,28 @@ async fn gen_directed(k: usize) -> Option<Case> {
             evs.push(Ev::Deliver { now: t(7) }); evs.push(Ev::Send { now: t(7) }); evs.push(Ev::Send { now: t(60) });
             run_case(cfg, u, Pol::None, format!("directed-batch-{}", if k == 16 { "first-hits" } else { "last-hits" }), fixed(evs), &mut rng, 99).await
         }
+        // a fresh interface-down report, then a refetch that brings more new paths than free slots
+        // (max_cached_paths_per_pair = 2): two shorter paths over the failed interface and, LAST in the
+        // answer, a longer one avoiding it.  18: the path in use is near expiry at that lookup, so the
+        // slot has to move; 19: the issue is known before the very first lookup
+        18 | 19 => {
+            let mut cfg = cfg_default(); cfg.pc.max_idle_period = secs(100000); cfg.pc.max_cached_paths_per_pair = 2;
+            let u = Universe { paths: vec![one(3, 400), one(0, 20000), one(5, 20000), one(2, 20000)] };
+            let evs = if k == 18 {
+                vec![Ev::Tick { now: t(0), ans: Some(vec![0]) }, Ev::Send { now: t(0) },
+                    Ev::Report { now: t(90), issue: ISSUE_POOL[0] }, Ev::Deliver { now: t(90) },
+                    Ev::Tick { now: t(100), ans: Some(vec![1, 2, 3]) }, Ev::Send { now: t(100) }, Ev::Send { now: t(130) },
+                    Ev::Tick { now: t(160), ans: Some(vec![2, 1, 3]) }, Ev::Send { now: t(160) }]
+            } else {
+                vec![Ev::Report { now: t(0), issue: ISSUE_POOL[0] }, Ev::Tick { now: t(3), ans: Some(vec![1, 2, 3]) }, Ev::Send { now: t(3) },
+                    Ev::Deliver { now: t(4) }, Ev::Send { now: t(4) }, Ev::Tick { now: t(63), ans: Some(vec![2, 1, 3]) }, Ev::Send { now: t(63) }]
+            };
+            run_case(cfg, u, Pol::None, format!("directed-fresh-issue-full-cache-{}", k - 18), fixed(evs), &mut rng, 99).await
+        }
         _ => None,
     }
 }
-const N_DIRECTED: usize = 18;
+const N_DIRECTED: usize = 20;
 
 fn emit(c: &Case, shards: &mut Shards, sum: &mut Summary, seen: &mut std::collections::HashSet<String>) {
     let evs = coq_list(c.evs.iter().map(|(e, o)| format!("({}, {})", e.coq(), o.coq())));
